@@ -62,6 +62,154 @@ def contention_finder(pid, failure, repo, seed):
         shutil.rmtree(scratch, ignore_errors=True)
 
 
+
+# ---------------------------------------------------------------------------------------------
+# Kani counterexamples: CBMC's trace turned into a native test by Kani's concrete playback and
+# run against the real code (outside CBMC; #[kani::stub] replacements are NOT applied there, so a
+# counterexample that needed a stub's behaviour does not reproduce and is reported as not found)
+# ---------------------------------------------------------------------------------------------
+_PLAYBACK_CACHE = {}
+
+
+def _scratch_with_harness_copy(scratch, repo):
+    """overlay scratch copy whose harness sources are a private copy (playback appends a test)"""
+    import shutil
+    r = subprocess.run([sys.executable, os.path.join(VERIF, "kani", "inject.py"), scratch, "--repo", repo],
+                       capture_output=True, text=True)
+    if r.returncode != 0:
+        return None
+    kdir = os.path.join(scratch, "verif_kani")
+    shutil.copytree(os.path.join(VERIF, "kani"), kdir)
+    for root, _, files in os.walk(scratch):
+        if "/target" in root or root.startswith(kdir):
+            continue
+        for f in files:
+            if f.endswith(".rs"):
+                pth = os.path.join(root, f)
+                t = open(pth).read()
+                if VERIF + "/kani/" in t:
+                    open(pth, "w").write(t.replace(VERIF + "/kani/", kdir + "/"))
+    return kdir
+
+
+def _harness_file(kdir, harness):
+    import re
+    for root, _, files in os.walk(kdir):
+        for f in sorted(files):
+            if f.endswith(".rs"):
+                t = open(os.path.join(root, f)).read()
+                if re.search(r"\bfn\s+%s\s*\(" % re.escape(harness), t) or \
+                        re.search(r"^\s*\w+!\(\s*%s\s*[,)]" % re.escape(harness), t, re.M):
+                    return os.path.join(root, f)
+    return None
+
+
+def _playback_tests(text):
+    """[(check description, test name, code)] from `--concrete-playback=print` output"""
+    import re
+    out = []
+    for m in re.finditer(r"```\n(.*?)```", text, re.S):
+        code = m.group(1)
+        d = re.search(r"Check for `(\w+)`: \"(.*?)\"\n", code, re.S)
+        n = re.search(r"fn (kani_concrete_playback_\w+)\(", code)
+        if d and n:
+            out.append((d.group(1), d.group(2), n.group(1), code))
+    return out
+
+
+def _run_playback(scratch, kdir, grp, harness, name, code):
+    import re
+    hf = _harness_file(kdir, harness)
+    if not hf:
+        return None, "harness source not found"
+    crate_root = os.path.join(scratch, grp["package"], "src", "lib.rs")
+    no_std = os.path.isfile(crate_root) and "#![no_std]" in open(crate_root).read()
+    if no_std:
+        code = code.replace("Vec<Vec<u8>>", "alloc::vec::Vec<alloc::vec::Vec<u8>>").replace("vec![", "alloc::vec![")
+    open(hf, "a").write("\n" + code + "\n")
+    cmd = ["cargo", "kani", "playback", "-Z", "concrete-playback", "-p", grp["package"]]
+    if grp.get("features"):
+        cmd += ["--features", grp["features"]]
+    cmd += ["--", name]
+    p = subprocess.run(cmd, cwd=scratch, env=dict(os.environ, CARGO_NET_OFFLINE="true", RUST_BACKTRACE="0"),
+                       capture_output=True, text=True, timeout=1800)
+    txt = p.stdout + p.stderr
+    if re.search(r"test result: FAILED", txt):
+        pm = re.search(r"panicked at [^\n]*\n([^\n]*)", txt)
+        return True, (pm.group(1).strip() if pm else "test failed")
+    if re.search(r"test result: ok\. 1 passed", txt):
+        return False, "the counterexample does not fail natively (stubs are not applied in playback)"
+    return None, "playback did not run: " + txt[-400:]
+
+
+def kani_playback(pid, failure, repo, seed):
+    import re, shutil
+    grp = failure.get("kani_group")
+    harness = failure.get("unit")
+    if not grp or not harness:
+        return None
+    desc = failure["obligation"].split("::", 1)[1] if "::" in failure["obligation"] else failure["obligation"]
+    key = (repo, harness)
+    scratch = os.path.join(os.environ.get("VERIF_SCRATCH", "/var/tmp"), "vp-playback-%s-%d" % (pid, os.getpid()))
+    try:
+        if key not in _PLAYBACK_CACHE:
+            shutil.rmtree(scratch, ignore_errors=True)
+            kdir = _scratch_with_harness_copy(scratch, repo)
+            if not kdir:
+                return None
+            cmd = ["cargo", "kani", "-p", grp["package"]]
+            if grp.get("features"):
+                cmd += ["--features", grp["features"]]
+            cmd += ["-Z", "function-contracts", "-Z", "stubbing", "-Z", "concrete-playback",
+                    "--concrete-playback=print"] + grp.get("flags", []) + ["--harness", harness]
+            import signal
+            proc = subprocess.Popen(cmd, cwd=scratch, env=dict(os.environ, CARGO_NET_OFFLINE="true"),
+                                    stdout=subprocess.PIPE, stderr=subprocess.STDOUT, text=True, start_new_session=True)
+            try:
+                text, _ = proc.communicate(timeout=int(os.environ.get("VERIF_PLAYBACK_TIMEOUT", "2400")))
+            except subprocess.TimeoutExpired:
+                try:
+                    os.killpg(proc.pid, signal.SIGKILL)
+                except ProcessLookupError:
+                    pass
+                text = ""
+            _PLAYBACK_CACHE[key] = [t for t in _playback_tests(text) if t[0] == "assertion"]
+        tests = _PLAYBACK_CACHE[key]
+        pick = [t for t in tests if t[1].strip() == desc.strip()] or [t for t in tests if desc.strip()[:40] in t[1]]
+        if not pick:
+            return None
+        _, d, name, code = pick[0]
+        if not os.path.isdir(scratch):
+            if not _scratch_with_harness_copy(scratch, repo):
+                return None
+        ok, msg = _run_playback(scratch, os.path.join(scratch, "verif_kani"), grp, harness, name, code)
+        if not ok:
+            failure["finder_error"] = "kani concrete playback: " + msg
+            return None
+        return dict(kind="kani-concrete-playback", harness=harness, package=grp["package"], features=grp.get("features"),
+                    check=d, test_name=name, test_code=code, native_outcome="panicked: " + msg,
+                    note="CBMC counterexample (values of every kani::any() in order) replayed natively on the real code; "
+                         "re-run with ./check replay <this file>")
+    finally:
+        shutil.rmtree(scratch, ignore_errors=True)
+
+
+def replay_playback(fi, repo="/repo"):
+    import shutil
+    scratch = os.path.join(os.environ.get("VERIF_SCRATCH", "/var/tmp"), "vp-playback-replay-%d" % os.getpid())
+    try:
+        kdir = _scratch_with_harness_copy(scratch, repo)
+        if not kdir:
+            print("could not build the overlay scratch copy")
+            return 2
+        ok, msg = _run_playback(scratch, kdir, dict(package=fi["package"], features=fi.get("features")),
+                                fi["harness"], fi["test_name"], fi["test_code"])
+        print("native playback:", "FAILS - " + msg if ok else msg)
+        return 1 if ok else 0
+    finally:
+        shutil.rmtree(scratch, ignore_errors=True)
+
+
 FINDERS = {"z80": z80_finder, "contention": contention_finder}
 VERUS_FINDERS = {("ctl", "contention_clocks"): "contention"}
 
@@ -70,13 +218,14 @@ def find_input(pid, failure, repo, seed):
     finder = failure.get("finder")
     if not finder and failure.get("engine") == "verus":
         finder = VERUS_FINDERS.get((failure.get("unit"), failure.get("function")))
-    if not finder:
-        return None
+    found = None
     if isinstance(finder, str):
         finder = FINDERS.get(finder)
-        if not finder:
-            return None
-    return finder(pid, failure, repo, seed)
+    if finder:
+        found = finder(pid, failure, repo, seed)
+    if not found and failure.get("engine") == "kani" and os.environ.get("VERIF_NO_PLAYBACK") != "1":
+        found = kani_playback(pid, failure, repo, seed)
+    return found
 
 
 def main(argv):
@@ -90,7 +239,11 @@ def main(argv):
     if not fi:
         print("no failing input was found for this obligation (verifier gives no model)")
         return 1
-    print("failing input:", json.dumps(fi))
+    print("failing input:", json.dumps({k: v for k, v in fi.items() if k != "test_code"}))
+    if fi.get("kind") == "kani-concrete-playback":
+        print(fi["test_code"])
+        repo = argv[argv.index("--repo") + 1] if "--repo" in argv else "/repo"
+        return replay_playback(fi, repo)
     if fi.get("replay_cmd"):
         r = subprocess.run(fi["replay_cmd"], shell=True)
         return 1 if r.returncode != 0 else 0
